@@ -39,10 +39,18 @@ AsgOver(S, a) ==
     IF S = {} THEN {a}
     ELSE LET k == CHOOSE x \in S : TRUE IN
          UNION {AsgOver(S \ {k}, [a EXCEPT ![k + 1] = v]) : v \in Dom(Vars[k + 1])}
+(* more than 12 variables (the scale-up helper cases): all assignments are too many; a structured sample instead - *)
+(* everything at its default, everything at its top value, and each of the two with one variable moved through    *)
+(* its whole domain (an operand that is dropped, duplicated or swapped shows on these)                            *)
+Top(k) == IF Vars[k].kind = "bool" THEN TRUE ELSE Vars[k].hi
+Probes(S, base) ==
+    LET top == [k \in DOMAIN Vars |-> IF k - 1 \in S THEN Top(k) ELSE base[k]] IN
+    {base, top} \cup UNION {UNION {{[base EXCEPT ![k + 1] = v], [top EXCEPT ![k + 1] = v]} : v \in Dom(Vars[k + 1])} : k \in S}
 SameMeaning(e1, e2) ==
     LET S == VarsOf(e1) \cup VarsOf(e2)
         base == [k \in DOMAIN Vars |-> Default(k)]
-    IN  \A a \in AsgOver(S, base) : Eval(e1, a) = Eval(e2, a)
+    IN  IF Cardinality(S) <= 12 THEN \A a \in AsgOver(S, base) : Eval(e1, a) = Eval(e2, a)
+        ELSE \A a \in Probes(S, base) : Eval(e1, a) = Eval(e2, a)
 
 ElemVerdict(exp) ==
     IF Len(R.elems) # Len(exp.elems) THEN "array:wrong-number-of-elements"
